@@ -16,26 +16,27 @@ def proj_framing(res):
 
 
 def proj_trunc(res):
-    """truncation / corruption families of C13, C14: the statements fix the decoded value and self-delimitation; a truncated
-    or corrupted structure must not yield a value, but whether the parser asks for more input or rejects is not fixed by them
-    (it was compared until the third session: relaxed as more than the properties state; the difference is logged as drift)"""
-    return res if res.startswith('ok ') else 'rejected'
+    """truncation / corruption families of C13, C14 (their quantifiers name truncations): the value on success, and otherwise
+    whether the parser asks for more input or rejects. The statements themselves do not fix the latter, so a difference there is
+    reported as a broken correspondence (`no-failing-input-found`), never as a failing input; the class oracles of those
+    families ("a strict prefix never yields a value") are what can name a failing input."""
+    if res.startswith('ok '):
+        return res
+    return 'incomplete' if res.startswith('incomplete') else 'rejected'
 
 
 RECORD_HDR = {'tls_raw': 5, 'tls_encrypted': 5, 'tls_plaintext': 5, 'tls_parser': 5, 'dtls_record': 13}
 
 
 def proj_framing_line(res, line):
-    """C02 / C10: the Incomplete contract and TooLarge are fixed for the *record* parsers only: for them, `incomplete` as a
-    class below the header size and with its exact Needed once the header is available. For every other op (headers alone,
-    handshake messages, DTLS bodies) the properties fix the value and "rejected", not which of Incomplete / Error rejects."""
-    toks = line.split(' ')
-    hdr = RECORD_HDR.get(toks[0])
-    if hdr is None:
-        return proj_value(res) if toks[0] not in ('tls_header', 'dtls_header') else (res if res.startswith('ok ') else ('incomplete' if res.startswith('incomplete') else 'rejected'))
+    """proj_framing, with the Needed count kept only where the property fixes it: for the record parsers once the
+    record header is available. Shorter inputs and non-record ops: only the fact of answering Incomplete (a difference there
+    is a broken correspondence, reported as `no-failing-input-found`)."""
     if res.startswith('incomplete '):
+        toks = line.split(' ')
+        hdr = RECORD_HDR.get(toks[0])
         nbytes = 0 if toks[-1] == '-' else len(toks[-1]) // 2
-        if nbytes < hdr:
+        if hdr is None or nbytes < hdr:
             return 'incomplete'
     return proj_framing(res)
 
